@@ -3,7 +3,24 @@ package ref
 import (
 	"math"
 	"math/cmplx"
+
+	"github.com/chewxy/math32"
 )
+
+// f32via computes a float32 maths function with the float32 routine the Go ecosystem offers for it (math32), which
+// is "the corresponding Go maths routine" for that element type; float64 uses package math.
+func powT[T float](a, b T) T {
+	if _, ok := interface{}(a).(float32); ok {
+		return T(math32.Pow(float32(a), float32(b)))
+	}
+	return T(math.Pow(float64(a), float64(b)))
+}
+func modT[T float](a, b T) T {
+	if _, ok := interface{}(a).(float32); ok {
+		return T(math32.Mod(float32(a), float32(b)))
+	}
+	return T(math.Mod(float64(a), float64(b)))
+}
 
 // One generic definition per scalar operation, instantiated per element type by the Go compiler: the oracle for
 // "Go's operator for that element type" (C06, C11, C12) and "the one type-generic definition" (C17).
@@ -126,9 +143,9 @@ func binF[T float](op string, a, b T) Res {
 	case "Div":
 		return Res{V: gDivF(a, b)}
 	case "Mod":
-		return Res{V: T(math.Mod(float64(a), float64(b))), Approx: true}
+		return Res{V: modT(a, b), Approx: true}
 	case "Pow":
-		return Res{V: T(math.Pow(float64(a), float64(b))), Approx: true}
+		return Res{V: powT(a, b), Approx: true}
 	case "MinBetween":
 		if a != a || b != b {
 			return Res{Skip: true}
